@@ -632,7 +632,7 @@ func init() {
 			if tier == "thorough" {
 				return 3000
 			}
-			return 400
+			return 1000
 		},
 		ChunkSize:   10,
 		Rule:        "argument generator = boundary lists x PRNG: 43 string classes (lengths 0,1,127,128,65535,65536; surrogates, overlongs of 2/3/4 bytes, truncated sequences, > U+10FFFF, stray continuation, 0xFF, five-byte form, U+0000 alone, embedded, last, and behind multi-byte characters; ill-formed bytes behind well-formed multi-byte characters; valid extremes: noncharacters, controls, U+10FFFF, a literal U+FFFD, U+FEFF, the first and last code point of each encoded length and both neighbours of the surrogate range) for topics, filters, client identifier, user name, will topic; payload sizes that put the remaining length on each side of 127/128, 16383/16384, 2097151/2097152 and (denial side) 268435455; 1-4 filters with each level limit; Config: will on/off x level x retain x message size, credentials five ways, keep-alive 0/1/60/65535, clean session. Every case issues ~40 calls on a connected client with a maximum of ONE in-flight transfer per level. Oracle: validity by a reference predicate written from the specification; valid => accepted and the packet found on the wire decodes strictly (independent codec) to the requested fields and equals the reference encoding; invalid => IsDeny (or constructor error), no byte written, no Persistence operation, and a following valid publish still fits the single slot; one case denies subscribe/unsubscribe requests of every kind (empty, ill-formed, 65,536 bytes, total size beyond the packet limit with 4,097 filters) and then counts how many requests fit at once, against a fresh client. Non-trivial: every call; distinct by (method, argument class, size class).",
